@@ -38,7 +38,7 @@ class BufrTableDefinitionProcessor(object):
     def _process_table_a_entries(self, decoded_node, decoded_values):
         n_repeats, is_delayed_replication = self._get_n_repeats(decoded_node, decoded_values)
         _expect(flat_member_ids(decoded_node.descriptor) == [1, 2, 3], 'Unexpected members of Table A entries')
-        vc = itertools.count(n_repeats * 3 + 1 if is_delayed_replication else 0)
+        vc = itertools.count(n_repeats * 3 + (1 if is_delayed_replication else 0))
 
         def get_decoded_values():
             value = decoded_values[next(vc)]
